@@ -45,24 +45,52 @@ RULE = ('(a) All ordered pairs of the known protocol numbers (369 on the '
         'new number; an unsupported pre-release U: flag flipped | a new '
         'number), replace the record of S / of U in place by one with the '
         'flag flipped, remove the last record and append a new one (same '
-        'record count); initglobals(True), initglobals(False), '
-        'add an entry to SUPPORTED_MINECRAFT_VERSIONS then initglobals()}; '
-        'thorough: histories of 5 actions are those whose first four are '
-        'appends / inserts / re-initialisations (<= 4: the full alphabet); '
+        'record count); a record whose NUMBER is out of numeric order for '
+        'its position: a new ordinary number larger than all, inserted '
+        'between two smaller ordinary ones / between a PRE-flagged and a '
+        'smaller ordinary one; a free smaller ordinary number appended after '
+        'the larger ones; a new PRE-flagged number larger than all inserted '
+        'between two smaller PRE-flagged ones; a free smaller PRE-flagged '
+        'number appended at the end; initglobals(True), initglobals(False), '
+        'add an entry to SUPPORTED_MINECRAFT_VERSIONS then initglobals()}.  '
+        'EVERY edit of the records exists in two forms: in place, on the '
+        'list object that minecraft.KNOWN_MINECRAFT_VERSION_RECORDS is at '
+        'that moment, and "@new": on a copy of it that is then ASSIGNED to '
+        'the module attribute (records = records + [...], a sorted or '
+        'filtered copy); histories mix the forms freely (assign, then edit '
+        'the new list in place; edit in place, then assign; assign twice).  '
+        'The out-of-order records and the "@new" forms occur anywhere in '
+        'histories of <= 3 actions (thorough: among the first three of <= 4 '
+        'actions: a state reached with them in three actions is only '
+        'rebuilt by initglobals(True) and judged without the long-lived '
+        'contexts); thorough: histories of 5 actions are those whose '
+        'first four are appends / inserts / re-initialisations in place (4: '
+        'the alphabet without out-of-order records and "@new" forms); '
         'states deduplicated on (records, contents of the seven derived '
-        'tables); every re-initialisation is judged, and repeated once to '
+        'tables, and - once the attribute is no longer the list object of '
+        'the import - what that object holds); the list object of the '
+        'import is put back as the attribute, with the unextended records, '
+        'at the end of every worker task and replay; every re-initialisation is judged, and repeated once to '
         'see that nothing changes when it ends a history of <= 4 actions '
-        '(longer ones: only through histories ending init, init, which are '
-        'judged against the projection); a history is judged at '
+        '(<= 2 actions when it contains an out-of-order record or an "@new" '
+        'form; longer ones: only through histories ending init, init, which '
+        'are judged against the projection); a history is judged at '
         'its last step, so the last level only applies the three '
         're-initialising actions).  Judged after initglobals(True): the '
         'seven tables against the literal projection of the records (every '
         'record counts: an id listed again as supported IS supported, from '
         'the position of its first supported listing; first occurrence of a '
-        'repeated entry kept); then, on the touched and boundary numbers, '
-        'the six pair predicates and in_range on fresh contexts and '
-        'minecraft.utility against the order of the rebuilt list, and the '
-        'same five ConnectionContext predicates on LONG-LIVED contexts: for '
+        'repeated entry kept); then, on the touched and boundary numbers '
+        'and, for every touched number, the number right before and right '
+        'after it in the rebuilt list and the nearest number of its own kind '
+        '(ordinary / PRE-flagged) on either side, '
+        'the six pair predicates on fresh contexts and minecraft.utility '
+        'against the POSITION in the rebuilt list (never the number), and '
+        'by real calls all triples (v, start, end) that involve a touched '
+        'number over the touched numbers, those neighbours and the last '
+        'three boundary numbers: protocol_in_range on a fresh context, and '
+        '(v touched) transitivity of utility.protocol_earlier / _earlier_eq: '
+        '(v,start), (start,end) => (v,end); and the same five ConnectionContext predicates on LONG-LIVED contexts: for '
         'every intermediate state k of the history (start, after each '
         'action) one generation of contexts created and used (all five '
         'predicates once) in state k, one generation created at the start '
@@ -79,6 +107,21 @@ RULE = ('(a) All ordered pairs of the known protocol numbers (369 on the '
 ASSUMPTIONS = [
     'the ids of NEW run-time records are new; an existing id is listed '
     'again only by the re-listing actions',
+    'the order of a run-time extension is the position of the record in '
+    'the list, whatever its number (the statement: the order "coincides '
+    'with their chronological position in the version list"; Mojang did '
+    'publish ordinary numbers out of numeric order, e.g. 801 between 751 '
+    'and 752); the numeric-order rule of part (a) is a property of the '
+    'SHIPPED list only',
+    'assigning a new list to minecraft.KNOWN_MINECRAFT_VERSION_RECORDS is a '
+    'way of extending the records at run time (initglobals is documented to '
+    'use "KNOWN_MINECRAFT_VERSION_RECORDS" as the source, and reads the '
+    'module global); assigning new objects to the seven DERIVED tables is '
+    'not (they are documented to be updated by reference)',
+    'a state whose record list was assigned is re-created by putting the '
+    'recorded contents into the list object of the import and assigning a '
+    'fresh copy of the recorded records to the attribute; list objects that '
+    'were the attribute in between (assigned twice) are not kept',
     'an id listed with two different protocol numbers: a names map can hold '
     'only one of them and the statement does not say which, nor whether the '
     'numbers lists follow the records or the map in that case.  Judged '
@@ -124,9 +167,13 @@ TABLES = ('KNOWN_MINECRAFT_VERSIONS', 'KNOWN_PROTOCOL_VERSIONS',
           'SUPPORTED_PROTOCOL_VERSIONS', 'RELEASE_MINECRAFT_VERSIONS',
           'RELEASE_PROTOCOL_VERSIONS')
 T_IDX = dict((n, i + 1) for i, n in enumerate(TABLES))   # slot in a snapshot
+STALE = len(TABLES) + 1   # slot: contents of the import's list object | None
+NEW = '@new'              # suffix of an action: done on a copy, then assigned
 UNORDERED = ('PROTOCOL_VERSION_INDICES',)   # a plain map: order is not judged
 TWICE_UP_TO = 4           # explicit second initglobals call after histories <= 4
+TWICE_R4_UP_TO = 2        # ... <= 2 when they contain a round-4 action
 FULL_ALPHABET_UP_TO = 4   # longer histories: round-1 alphabet before the end
+R4_UP_TO = 3              # round-4 actions: among the first 3 of a history
 MAX_PER_TASK = 3          # violations recorded per triple task (all counted)
 
 
@@ -159,18 +206,37 @@ class Env(object):
                     self.holders.append((mod, mname, n, getattr(mod, n)))
         self.base = self.snapshot()
 
+    def stale(self):
+        """None while minecraft.KNOWN_MINECRAFT_VERSION_RECORDS is the list
+        object created by the import; after the user assigned a new list to
+        the attribute: what the list object of the import holds now."""
+        if self.M.KNOWN_MINECRAFT_VERSION_RECORDS is self.records:
+            return None
+        return tuple(self.records)
+
     def snapshot(self):
         M = self.M
         out = [tuple(M.KNOWN_MINECRAFT_VERSION_RECORDS)]
         for n in TABLES:
             o = getattr(M, n)
             out.append(tuple(o.items()) if hasattr(o, 'items') else tuple(o))
+        out.append(self.stale())
         return tuple(out)
+
+    def restore_records(self, snap):
+        """The record list of a snapshot; the list object of the import is
+        always put back (as the attribute, or with its stale contents beside
+        a NEW list object that is assigned to the attribute)."""
+        if snap[STALE] is None:
+            self.M.KNOWN_MINECRAFT_VERSION_RECORDS = self.records
+            self.records[:] = snap[0]
+        else:
+            self.records[:] = snap[STALE]
+            self.M.KNOWN_MINECRAFT_VERSION_RECORDS = list(snap[0])
 
     def restore(self, snap):
         M = self.M
-        M.KNOWN_MINECRAFT_VERSION_RECORDS = self.records
-        self.records[:] = snap[0]
+        self.restore_records(snap)
         for n in TABLES:
             o = self.objs[n]
             setattr(M, n, o)
@@ -973,6 +1039,15 @@ class Plan(object):
                     break
             else:
                 raise ToolError('no mid-list gap for %s inserts' % kind)
+        # the latest place where a PRE-flagged record and an ordinary one
+        # are neighbours (round 4: an out-of-order number goes in between)
+        for i in range(len(base) - 1, 0, -1):
+            p, q = base[i - 1][1], base[i][1]
+            if p & PRE != q & PRE and p != q:
+                self.anchor['mix'] = (base[i][0], p, q)
+                break
+        else:
+            raise ToolError('no PRE-flagged / ordinary neighbours')
         # ids that are listed again / replaced in place: S = the middle one
         # of the supported release-shaped records, U = the last unsupported
         # record whose number no supported record carries
@@ -997,8 +1072,20 @@ class Plan(object):
         # removed and another added (the record count stays the same)
         acts += ['rel:S:same', 'rel:S:flip', 'rel:S:num',
                  'rel:U:flip', 'rel:U:num', 'rep:S', 'rep:U', 'swap']
+        self.r3_edits = list(acts)
+        # round 4: records whose NUMBER is out of numeric order with respect
+        # to their position (the order is the position, never the number)
+        self.ooo = ['ooo:hi:ord', 'ooo:hi:mix', 'ooo:lo', 'ooo:hipre',
+                    'ooo:lopre']
+        acts += self.ooo
+        # round 4: every edit of the records in a second form - done on a
+        # copy of the list, which is then ASSIGNED to the module attribute
+        self.edits = list(acts)
+        acts += [a + NEW for a in self.edits]
         self.inits = ['initT', 'initF', 'edit+init']
         self.actions = acts + self.inits
+        self.r3_actions = self.r3_edits + self.inits
+        self.r4 = set(self.actions) - set(self.r3_actions)
         self.old = set(self.old_actions + self.inits)
         pre_base = [p for p in K if p & PRE]
         ords = [p for p in K if not p & PRE]
@@ -1006,7 +1093,7 @@ class Plan(object):
                  min(pre_base), self.dup, self.seed_dup, self.edit_proto])
         k0 = K.index(min(pre_base))
         b.update(K[max(0, k0 - 1):k0 + 1])
-        for kind in ('ord', 'pre'):
+        for kind in ('ord', 'pre', 'mix'):
             b.update(self.anchor[kind][1:])
         for t in self.target.values():
             b.update(r[1] for r in base if r[0] == t)
@@ -1037,12 +1124,66 @@ def new_id(P, records, shape):
         k += 1
 
 
+def split_form(name):
+    """-> (action, True if it is done on a copy that is then assigned)"""
+    if name.endswith(NEW):
+        return name[:-len(NEW)], True
+    return name, False
+
+
+def free_in_gap(records, lo, hi):
+    """The first number of the gap lo < p < hi that no record carries."""
+    used = set(r[1] for r in records)
+    for p in range(lo + 1, hi):
+        if p not in used:
+            return p
+    raise ToolError('insert gap exhausted')
+
+
 def mutate(e, P, name):
-    """The edit part of an action, done the way a library user would."""
+    """The edit part of an action, done the way a library user would: on
+    the list object that minecraft.KNOWN_MINECRAFT_VERSION_RECORDS is at the
+    moment, or (form '@new') on a copy of it that is then assigned to the
+    attribute (records = records + [...], a sorted / filtered copy, ...)."""
     M = e.M
+    name, rebind = split_form(name)
     records = M.KNOWN_MINECRAFT_VERSION_RECORDS
+    if rebind:
+        if name in P.inits:
+            raise ToolError('no second form of %r' % name)
+        records = list(records)
+    edit_records(e, P, name, records)
+    if rebind:
+        M.KNOWN_MINECRAFT_VERSION_RECORDS = records
+
+
+def edit_records(e, P, name, records):
+    M = e.M
     parts = name.split(':')
-    if parts[0] == 'app':
+    if parts[0] == 'ooo':
+        kind = parts[1]
+        if kind == 'hi':       # a LARGER ordinary number before smaller ones
+            p = max(r[1] for r in records if not r[1] & PRE) + 1
+            at = [i for i, r in enumerate(records)
+                  if r[0] == P.anchor[parts[2]][0]][0]
+            records.insert(at, e.Version(new_id(P, records, 'rel'), p, True))
+        elif kind == 'lo':     # a SMALLER ordinary number after larger ones
+            _, lo, hi = P.anchor['ord']
+            records.append(e.Version(new_id(P, records, 'rel'),
+                                     free_in_gap(records, lo, hi), True))
+        elif kind == 'hipre':  # a larger PRE-flagged number before smaller
+            p = max(r[1] for r in records if r[1] & PRE) + 1
+            at = [i for i, r in enumerate(records)
+                  if r[0] == P.anchor['pre'][0]][0]
+            records.insert(at, e.Version(new_id(P, records, 'snap'), p,
+                                         False))
+        elif kind == 'lopre':  # a smaller PRE-flagged number after larger
+            _, lo, hi = P.anchor['pre']
+            records.append(e.Version(new_id(P, records, 'snap'),
+                                     free_in_gap(records, lo, hi), False))
+        else:
+            raise ToolError('unknown action %r' % name)
+    elif parts[0] == 'app':
         num, sup, shape = parts[1:]
         if num == 'ord':
             p = max(r[1] for r in records if not r[1] & PRE) + 1
@@ -1055,10 +1196,7 @@ def mutate(e, P, name):
         records.append(e.Version(new_id(P, records, shape), p, sup == 'sup'))
     elif parts[0] == 'ins':
         aid, lo, hi = P.anchor[parts[1]]
-        used = sum(1 for r in records if lo < r[1] < hi)
-        p = lo + 1 + used
-        if p >= hi:
-            raise ToolError('insert gap exhausted')
+        p = free_in_gap(records, lo, hi)
         at = [i for i, r in enumerate(records) if r[0] == aid][0]
         records.insert(at, e.Version(new_id(P, records, 'rel'), p, True))
     elif parts[0] in ('rel', 'rep'):
@@ -1229,10 +1367,13 @@ def observer_failures(e, rank, nums, small, gens, out, unit):
 def predicates_after(e, P, records, rank, unit, gens=()):
     """Pair predicates (and in_range) on the extended list: fresh contexts
     and minecraft.utility, then the long-lived contexts `gens`.
-    -> (failures, numbers used, observers asked)"""
+    -> (failures, numbers used, observers asked, counts for the evidence)"""
     touched, nums = touched_numbers(P, records)
     nums = [p for p in nums if p in rank]
     touched = [p for p in touched if p in rank]
+    near = neighbours(rank, touched)
+    nums = dedup(nums + near)
+    stats = {'numeric_vs_list': 0, 'triples': 0}
     out = []
     CC, ue, uee = e.CC, e.U.protocol_earlier, e.U.protocol_earlier_eq
     for a in nums:
@@ -1242,6 +1383,8 @@ def predicates_after(e, P, records, rank, unit, gens=()):
         ra = rank[a]
         for b in nums:
             rb = rank[b]
+            if (a < b) != (ra < rb) and a & PRE == b & PRE:
+                stats['numeric_vs_list'] += 1
             try:
                 got = (f1(b), f2(b), f3(b), f4(b), ue(a, b), uee(a, b))
             except Exception:
@@ -1251,14 +1394,27 @@ def predicates_after(e, P, records, rank, unit, gens=()):
                 out += [('pair %s %s %s' % (fmt(a), fmt(b), lab), txt)
                         for lab, txt in pair_failures(e, rank, a, b, unit)]
                 if len(out) > 6:
-                    return out, len(nums), 0
+                    return out, len(nums), 0, stats
     small = dedup(touched + [p for p in P.boundary[-3:] if p in rank])
-    for v in small:
+    # triples (v, s, t) that involve a new number, over the new numbers,
+    # their neighbours in the list and the last boundary numbers: in_range
+    # on a fresh context, transitivity of both utility predicates
+    tri = dedup(small + near)
+    tset, sset = set(touched), set(small)
+    for v in tri:
         inr = CC(protocol_version=v).protocol_in_range
         rv = rank[v]
-        for s in small:
+        for s in tri:
             lo = rank[s] <= rv
-            for t in small:
+            try:
+                vs = (ue(v, s), uee(v, s))
+            except Exception:
+                vs = None                 # reported by the pair pass
+            for t in tri:
+                if not (v in tset or s in tset or t in tset or
+                        (v in sset and s in sset and t in sset)):
+                    continue
+                stats['triples'] += 1
                 try:
                     ok = inr(s, t) == (lo and rv < rank[t])
                 except Exception:
@@ -1268,12 +1424,51 @@ def predicates_after(e, P, records, rank, unit, gens=()):
                     if txt:
                         out.append(('in_range %s %s %s'
                                     % (fmt(v), fmt(s), fmt(t)), txt))
-                    if len(out) > 6:
-                        return out, len(nums), 0
+                if vs is not None and v in tset:
+                    for k, (pn, f) in enumerate((('protocol_earlier', ue),
+                                                 ('protocol_earlier_eq',
+                                                  uee))):
+                        try:
+                            ok = not (vs[k] and f(s, t)) or f(v, t)
+                        except Exception:
+                            continue
+                        if not ok:
+                            out.append((
+                                'transitive %s %s %s %s'
+                                % (pn, fmt(v), fmt(s), fmt(t)),
+                                'utility.%s holds for (%s, %s) and (%s, %s) '
+                                'but not for (%s, %s)'
+                                % (pn, fmt(v), fmt(s), fmt(s), fmt(t),
+                                   fmt(v), fmt(t))))
+                if len(out) > 6:
+                    return out, len(nums), 0, stats
     n_obs = 0
     if gens and not out:
         n_obs = observer_failures(e, rank, nums, set(small), gens, out, unit)
-    return out, len(nums), n_obs
+    return out, len(nums), n_obs, stats
+
+
+def neighbours(rank, touched):
+    """For every touched number: the number right before it and right after
+    it in the list (the order oracle `rank`), and the nearest number OF ITS
+    OWN KIND (ordinary / PRE-flagged) before it and after it; these are the
+    numbers an out-of-order number must be compared with on either side."""
+    if not touched:
+        return []
+    K = sorted(rank, key=rank.get)
+    pos = dict((p, k) for k, p in enumerate(K))
+    out = []
+    for t in touched:
+        for rng in (range(pos[t] - 1, -1, -1), range(pos[t] + 1, len(K))):
+            first = True
+            for k in rng:
+                if first:
+                    out.append(K[k])
+                    first = False
+                if K[k] & PRE == t & PRE:
+                    out.append(K[k])
+                    break
+    return dedup(out)
 
 
 def first_ranks_fast(records):
@@ -1324,8 +1519,9 @@ def judge_init(e, P, name, before, twice=True, gens=()):
         else:
             rank = first_ranks_fast(snap[0])[1]
             unit = 'record #'
-        pf, info['nums'], info['observers'] = predicates_after(
+        pf, info['nums'], info['observers'], stats = predicates_after(
             e, P, list(snap[0]), rank, unit, gens)
+        info.update(stats)
         fails += pf
     # idempotence: the same call once more changes nothing
     if not twice:
@@ -1337,7 +1533,7 @@ def judge_init(e, P, name, before, twice=True, gens=()):
         again = None
         fails.append(('second call raises', 'calling initglobals a second '
                       'time raised %s(%s)' % (type(x).__name__, x)))
-    if again is not None and again != snap:
+    if again is not None and again[:STALE] != snap[:STALE]:
         which = [n for n in TABLES if again[T_IDX[n]] != snap[T_IDX[n]]]
         if again[0] != snap[0]:
             which.insert(0, 'KNOWN_MINECRAFT_VERSION_RECORDS')
@@ -1352,13 +1548,42 @@ NEW_FAMILIES = {'rel': 'an id listed again', 'rep': 'a record replaced in '
                 'place', 'swap': 'a record removed and another added'}
 
 
+OOO_FAMILIES = {
+    'hi': 'a larger ordinary number listed before smaller ones',
+    'lo': 'a smaller ordinary number listed after larger ones',
+    'hipre': 'a larger PRE-flagged number listed before smaller ones',
+    'lopre': 'a smaller PRE-flagged number listed after larger ones'}
+
+
 def family(a):
-    parts = a.split(':')
+    parts = split_form(a)[0].split(':')
     if parts[0] == 'rel':
         return 'an id listed again (%s)' % {
             'same': 'same values', 'flip': 'supported flag differs',
             'num': 'another number'}[parts[2]]
+    if parts[0] == 'ooo':
+        if parts[1] == 'hi' and parts[2] == 'mix':
+            return ('a larger ordinary number listed between a PRE-flagged '
+                    'and a smaller ordinary one')
+        return OOO_FAMILIES[parts[1]]
     return NEW_FAMILIES.get(parts[0])
+
+
+def form_classes(P, full):
+    """How the record list object was treated along a history."""
+    forms = [split_form(a)[1] for a in full
+             if split_form(a)[0] in P.edits]
+    out = []
+    if True in forms:
+        out.append('the record list assigned as a new list object')
+        k = forms.index(True)
+        if False in forms[k + 1:]:
+            out.append('the record list assigned as a new list object, then '
+                       'the new list edited in place')
+        if False in forms[:len(forms) - forms[::-1].index(True) - 1]:
+            out.append('the record list edited in place, then assigned as a '
+                       'new list object')
+    return out
 
 
 def step(ctx, e, P, hist, name, judge=True, prefix=None, hold=None):
@@ -1390,7 +1615,8 @@ def step(ctx, e, P, hist, name, judge=True, prefix=None, hold=None):
              % (list(hist), type(x).__name__, x), case)
         ctx.outcome('%s raises' % name)
         return True, None
-    twice = len(full) <= TWICE_UP_TO
+    twice = len(full) <= (TWICE_R4_UP_TO if any(a in P.r4 for a in full)
+                          else TWICE_UP_TO)
     fails, snap, info = judge_init(e, P, name, before, twice, gens)
     if twice:
         ctx.cls('re-initialisations repeated for idempotence')
@@ -1433,6 +1659,15 @@ def step(ctx, e, P, hist, name, judge=True, prefix=None, hold=None):
                     'several numbers)')
         for fam in sorted(set(f for f in map(family, full) if f)):
             ctx.cls('initT after %s' % fam)
+        for fc in form_classes(P, full):
+            ctx.cls('initT after %s' % fc)
+        if info.get('numeric_vs_list'):
+            ctx.cls('initT: re-checked pairs of two ordinary (or two '
+                    'PRE-flagged) numbers whose numeric order is not their '
+                    'order in the list', info['numeric_vs_list'])
+        if info.get('triples'):
+            ctx.cls('initT: triples around the new numbers by real calls '
+                    '(in_range, transitivity)', info['triples'])
     else:
         stale = project(snap[0])       # cached per record list
         if stale and list(snap[T_IDX['SUPPORTED_MINECRAFT_VERSIONS']]) != \
@@ -1480,9 +1715,14 @@ def w_expand(ctx, task, confirming=True):
     states are kept on a stack instead of being replayed again).  A failing
     history is executed once more alone (confirm): the violation reported is
     the one that `replay` reproduces."""
-    hists, last = task
+    hists, mode = task
+    if mode is True or mode is False:       # (replay files of earlier rounds)
+        mode = 'inits' if mode else 'all'
+    last = mode in ('inits', 'initT')
     e = env()
     P = plan(ctx.seed)
+    alphabet = {'inits': P.inits, 'all': P.actions, 'r3': P.r3_actions,
+                'initT': ['initT']}[mode]
     succ = []
     stack = []                     # (action, snapshot after it)
     try:
@@ -1499,7 +1739,9 @@ def w_expand(ctx, task, confirming=True):
                 stack.append((a, e.snapshot()))
             S = stack[-1][1] if stack else e.base
             prefix = [e.base] + [sn for _, sn in stack]
-            for a in (P.inits if last else P.actions):
+            if mode == 'initT':
+                prefix = None       # (judged without long-lived contexts)
+            for a in alphabet:
                 ctx.transitions += 1
                 held = []
                 bad, snap = step(ctx, e, P, hist, a, prefix=prefix,
@@ -1507,7 +1749,7 @@ def w_expand(ctx, task, confirming=True):
                 if snap is None and a not in P.inits:
                     # an edit of the records: the tables are those of S
                     snap = (tuple(e.M.KNOWN_MINECRAFT_VERSION_RECORDS),) + \
-                        S[1:]
+                        S[1:STALE] + (e.stale(),)
                     edit_only = True
                 else:
                     edit_only = False
@@ -1534,11 +1776,11 @@ def w_expand(ctx, task, confirming=True):
                             'besides the records and the tables]'
                             % ([' -> '.join(h) or '(empty)'
                                 for h in hists[:i]][-3:],),
-                            {'op': 'task', 'last': bool(last),
+                            {'op': 'task', 'last': bool(last), 'mode': mode,
                              'hists': [list(h) for h in hists[:i + 1]],
                              'seed_dup': P.seed_dup})
                 if edit_only:
-                    e.records[:] = S[0]
+                    e.restore_records(S)
                 else:
                     e.restore(S)
     finally:
@@ -1558,9 +1800,26 @@ def part_b(ctx, e):
     per_level = []
     for level in range(1, depth + 1):
         last = level == depth
-        per = max(1, min(64, len(frontier) // (JOBS * 4)))
-        tasks = [(frontier[i:i + per], last)
-                 for i in range(0, len(frontier), per)]
+        # round-4 actions (out-of-order numbers, the '@new' forms): anywhere
+        # in histories of <= R4_UP_TO + 1 actions; a state reached WITH them
+        # in R4_UP_TO actions is only rebuilt by initglobals(True) (judged
+        # without long-lived contexts, not extended further), one reached
+        # without them goes on with the round-3 alphabet
+        groups = {}
+        for h in frontier:
+            with4 = any(a in P.r4 for a in h)
+            if last:
+                mode = 'inits'
+            elif level <= R4_UP_TO:
+                mode = 'all'
+            else:
+                mode = 'initT' if with4 else 'r3'
+            groups.setdefault(mode, []).append(h)
+        tasks = []
+        for mode in sorted(groups):
+            hs = groups[mode]
+            per = max(1, min(64, len(hs) // (JOBS * 4)))
+            tasks += [(hs[i:i + per], mode) for i in range(0, len(hs), per)]
         rnd.shuffle(tasks)
         before_v = len(ctx.violations)
         ctx.extra.pop('succ', None)
@@ -1570,17 +1829,24 @@ def part_b(ctx, e):
         best = {}
         for c, hist in succ:
             # representative of a state: fewest round-3 actions, then least
-            key = (sum(1 for a in hist if a not in P.old), hist)
+            key = (sum(1 for a in hist if a in P.r4),
+                   sum(1 for a in hist if a not in P.old), hist)
             if c not in seen and (c not in best or key < best[c]):
                 best[c] = key
         seen.update(best)
         per_level.append({'level': level, 'expanded': len(frontier),
+                          'expanded_by_alphabet': dict(
+                              (m, len(hs)) for m, hs in groups.items()),
                           'new_states': len(best) if not last else None})
-        frontier = sorted(h for _, h in best.values())
+        frontier = sorted(h for _, _, h in best.values())
+        if level + 1 > R4_UP_TO + 1:
+            frontier = sorted(h for n4, _, h in best.values() if n4 == 0)
+            per_level[-1]['carried_on'] = len(frontier)
         if level + 1 > FULL_ALPHABET_UP_TO:
             # the longest histories (thorough) keep to the states reached
             # by appends / inserts / re-initialisations only
-            frontier = sorted(h for n, h in best.values() if n == 0)
+            frontier = sorted(h for n4, n, h in best.values()
+                              if n == 0 and n4 == 0)
             per_level[-1]['carried_on'] = len(frontier)
         if len(ctx.violations) > before_v:
             ctx.extra['histories_stopped_after_level'] = level
@@ -1596,7 +1862,28 @@ def part_b(ctx, e):
                       'differs)',
                       'initT after an id listed again (another number)',
                       'initT after a record replaced in place',
-                      'initT after a record removed and another added'):
+                      'initT after a record removed and another added',
+                      'initT after a larger ordinary number listed before '
+                      'smaller ones',
+                      'initT after a larger ordinary number listed between '
+                      'a PRE-flagged and a smaller ordinary one',
+                      'initT after a smaller ordinary number listed after '
+                      'larger ones',
+                      'initT after a larger PRE-flagged number listed before '
+                      'smaller ones',
+                      'initT after a smaller PRE-flagged number listed after '
+                      'larger ones',
+                      'initT after the record list assigned as a new list '
+                      'object',
+                      'initT after the record list assigned as a new list '
+                      'object, then the new list edited in place',
+                      'initT after the record list edited in place, then '
+                      'assigned as a new list object',
+                      'initT: re-checked pairs of two ordinary (or two '
+                      'PRE-flagged) numbers whose numeric order is not their '
+                      'order in the list',
+                      'initT: triples around the new numbers by real calls '
+                      '(in_range, transitivity)'):
             if not ctx.classes.get(label):
                 raise ToolError('vacuous: no history of class %r' % label)
     ctx.extra['history_depth_completed'] = done
@@ -1704,7 +1991,8 @@ def replay(ctx, case):
             P = plan(ctx.seed)
             if 'seed_dup' in case:
                 P.seed_dup = case['seed_dup']
-            w_expand(ctx, ([tuple(h) for h in case['hists']], case['last']),
+            w_expand(ctx, ([tuple(h) for h in case['hists']],
+                           case.get('mode', case['last'])),
                      confirming=False)
             ctx.extra.pop('succ', None)
         else:
